@@ -46,6 +46,7 @@ int Gen::addDomain(bool rel, int maxK, long maxStates)
         else sz.pop_back();
     }
     if (sz.empty()) sz.push_back(2);
+    if (getenv("MVH_UNIFORM")) for (auto& s : sz) s = sz[0];      // development aid
     P.domains.push_back(sz);
     return int(P.domains.size()) - 1;
 }
